@@ -75,13 +75,17 @@ def ref_delete(target, steps):
     except Exception:
         present = None
     if isinstance(cur, (tuple, str, bytes, frozenset, int, float, type(None), bool)):
-        raise RefErr('fault', len(steps) - 1, TypeError('immutable container'))
+        err = RefErr('fault', len(steps) - 1, TypeError('immutable container'))
+        err.present = present
+        raise err
     try:
         do_delete(cur, op, seg)
     except Exception as e:
         if present is False and not isinstance(cur, (mc.FaultDict, mc.FaultObj)) and isinstance(e, MISSING_FINAL + (TypeError,)):
             raise RefErr('final', len(steps) - 1, e)
-        raise RefErr('fault', len(steps) - 1, e)
+        err = RefErr('fault', len(steps) - 1, e)
+        err.present = present
+        raise err
 
 
 def gen(draw):
@@ -101,7 +105,7 @@ def check(recipe, ctx):
         ref_delete(rb.obj, steps)
         exp = ('ok',)
     except RefErr as e:
-        exp = ('err', e.kind, e.k, e.exc)
+        exp = ('err', e.kind, e.k, e.exc, getattr(e, 'present', None))
     ctx.label('exp-' + (exp[0] if exp[0] == 'ok' else 'err-' + exp[1]), 'len-%d' % len(steps),
               'ignore' if ign else 'strict')
     ctx.nontrivial(len(steps) >= 2 or exp[0] == 'err')
@@ -149,10 +153,17 @@ def check(recipe, ctx):
                 raise Mismatch('not-atomic', '%s: nothing to delete but the target changed: %s' % (where, unchanged))
             continue
         if kind == 'fault' and ign:
-            # the statement covers absent elements only; whether a refused deletion is reported under
-            # ignore_missing=True is not constrained - but the target must not change
+            # the element is PRESENT and its deletion is refused: that is not a missing element.  "A successful delete
+            # has exactly the effect of Python's del": returning normally with the element still there is no option,
+            # in any addressing style.  (A refusal that looks exactly like absence - AttributeError / LookupError from
+            # the container itself - cannot be told apart and is not constrained.)
             if unchanged:
                 raise Mismatch('not-atomic', '%s: deletion refused but the target changed: %s' % (where, unchanged))
+            if err is None and exp[4] is True and not isinstance(exp[3], (AttributeError, LookupError, ValueError)):
+                ctx.label('fault-under-ignore-missing')
+                raise Mismatch('refused-delete-reported-as-success', '%s: the element is present and del raises %r; glom returned '
+                               'normally and the element is still there' % (where, exp[3]))
+            ctx.label('fault-under-ignore-missing')
             continue
         if err is None:
             raise Mismatch('missing-error', '%s: del fails (%s at step %s: %r); glom returned %r'
